@@ -17,7 +17,7 @@ var flatListFields = []string{"To", "Bto", "CC", "BCC", "Audience"}
 
 // item tokens for flattened positions
 var flatTokens = func() []string {
-	t := []string{"iri", "obj", "obj-noid", "link", "link-noid", "actor", "objv", "nil", "activity", "col", "list"}
+	t := []string{"iri", "obj", "obj-noid", "link", "link-noid", "link-untyped", "link-hashtag", "actor", "objv", "nil", "activity", "col", "list", "list1", "col1", "iris1"}
 	// an embedded value of every non-collection object kind, pointer and value form
 	for _, k := range vmodel.Kinds {
 		if k.Fam == "collection" || k.Fam == "link" {
@@ -52,6 +52,16 @@ func flatItem(tok string, n int) vocab.Item {
 		return &vocab.Link{ID: id, Type: vocab.MentionType, Href: "https://example.com/href"}
 	case "link-noid":
 		return &vocab.Link{Type: vocab.LinkType, Href: vocab.IRI(fmt.Sprintf("https://example.com/href/%d", n))}
+	case "link-untyped":
+		return &vocab.Link{Href: vocab.IRI(fmt.Sprintf("https://example.com/href/u%d", n)), Name: vocab.NaturalLanguageValues{{Ref: vocab.NilLangRef, Value: vocab.Content("untyped link")}}}
+	case "link-hashtag":
+		return &vocab.Link{ID: id, Type: "Hashtag", Href: vocab.IRI(fmt.Sprintf("https://example.com/tags/%d", n)), Name: vocab.NaturalLanguageValues{{Ref: vocab.NilLangRef, Value: vocab.Content("#tag")}}}
+	case "list1":
+		return vocab.ItemCollection{&vocab.Actor{ID: id, Type: vocab.PersonType}}
+	case "col1":
+		return &vocab.Collection{ID: id, Type: vocab.CollectionType, Items: vocab.ItemCollection{&vocab.Object{ID: id + "/only", Type: vocab.NoteType}}}
+	case "iris1":
+		return vocab.IRIs{id}
 	case "actor":
 		return &vocab.Actor{ID: id, Type: vocab.PersonType, Inbox: id + "/inbox"}
 	case "objv":
@@ -410,7 +420,7 @@ var flatTargets = func() []flatTarget {
 }()
 
 // list arrangements: all sequences of length <= 4 over these tokens
-var flatListTokens = []string{"objA", "iriA", "objB", "noid", "nil", "link", "iriC"}
+var flatListTokens = []string{"objA", "iriA", "objB", "noid", "nil", "link", "iriC", "link-hashtag", "link-untyped"}
 
 // wider token set for the random layer: every object kind as a list member too
 var flatListTokensWide = func() []string {
@@ -443,6 +453,10 @@ func flatListItem(tok string) vocab.Item {
 		return &vocab.Link{ID: "https://example.com/flat/L", Type: vocab.MentionType, Href: "https://example.com/flat/A"}
 	case "iriC":
 		return vocab.IRI("https://example.com/flat/C")
+	case "link-hashtag":
+		return &vocab.Link{ID: "https://example.com/flat/H", Type: "Hashtag", Href: "https://example.com/tags/go"}
+	case "link-untyped":
+		return &vocab.Link{Href: "https://example.com/flat/untyped-href"}
 	}
 	panic(tok)
 }
@@ -473,7 +487,7 @@ func init() {
 	Register(&Prop{
 		ID: "C16",
 		Rule: "model: in actor, object, target, result, origin, instrument, attributedTo, replies, likes, shares every embedded non-collection object with an id becomes that id; IRIs, links (with or without id) and id-less objects stay; in to/bto/cc/bcc/audience likewise (the result may also be the de-duplication of the model, nothing else); no IRI may appear that was not in the original; every other property unchanged; flatten twice = once. " +
-			"Exhaustive: 9 kinds x {specific, generic, untyped} type names x every flattened single position x 30+ item shapes (IRI, objects with and without id, links, value forms, every non-collection object kind in pointer and value form, collections, lists) x {dispatching FlattenProperties, typed Flatten*Properties}; all list arrangements of length <= 4 over {object A, IRI A, object B, id-less object, nil, link, IRI C} in each of the five lists; random combinations; distinct = the case; non-trivial = all",
+			"Exhaustive: 9 kinds x {specific, generic, untyped} type names x every flattened single position x 30+ item shapes (IRI, objects with and without id, links, value forms, every non-collection object kind in pointer and value form, collections, lists) x {dispatching FlattenProperties, typed Flatten*Properties}; all list arrangements of length <= 4 over {object A, IRI A, object B, id-less object, nil, link, IRI C, a link typed outside the link vocabulary, an untyped link} in each of the five lists; random combinations; distinct = the case; non-trivial = all",
 		Layers: func(tier string) []Layer {
 			return []Layer{
 				{Name: "single-positions", N: len(flatTargets) * len(flatItemFields) * len(flatTokens) * 2, Exhaustive: true, Run: func(c *Ctx, idx int) {
